@@ -20,6 +20,11 @@ Sources
            (pymoo 0.6.2 ``minimize`` without ``seed=``  ->  ``numpy.random.default_rng(None)``)
   DROPS    an instance method of a class that owns a generator passes the literal ``rng = None`` on
   IGNORED  a function accepts ``rng`` and never reads it (abstract stubs excepted)
+  COPIES   the body takes a *snapshot* of a generator instead of sharing it: ``copy.copy`` / ``copy.deepcopy`` / ``pickle.dumps``
+           applied to a generator reference (``rng``, ``random_state``, ``<obj>.rng``, ``<obj>._rng``, ``global_prng``), or an
+           attribute of one that exposes its state (``get_state``, ``__getstate__``, ``__reduce__``, ``__reduce_ex__``,
+           ``__copy__``, ``__deepcopy__``, ``bit_generator.state``).  A component holding such a private snapshot no longer
+           follows the stream it was given (for rng=None: the global stream that seed() sets)
 
 The translator fails closed: any reference to an entropy-bearing module that does not match one of the patterns
 below raises TranslateError (the check then reports a violation instead of silently missing a source).
@@ -28,7 +33,9 @@ name in the package; ``self.x`` is linked to the member ``x`` of the class, its 
 """
 import ast, os, re, hashlib
 
-BITS = {"PARAM": 1, "SELF": 2, "DEFAULT": 4, "NP": 8, "PY": 16, "OS": 32, "DROPS": 64, "IGNORED": 128}
+BITS = {"PARAM": 1, "SELF": 2, "DEFAULT": 4, "NP": 8, "PY": 16, "OS": 32, "DROPS": 64, "IGNORED": 128, "COPIES": 256}
+COPY_FUNCS = {"copy.copy", "copy.deepcopy", "pickle.dumps", "pickle.dump", "copyreg.__reduce_ex__"}
+SNAP_ATTRS = {"get_state", "__getstate__", "__reduce__", "__reduce_ex__", "__copy__", "__deepcopy__"}
 
 class TranslateError(Exception):
     pass
@@ -312,6 +319,7 @@ class Table:
         if isinstance(e, ast.Call):
             self._expr(f, e.func, mod, shadow, default_nodes, rng_params, called=e)
             for a in e.args: self._expr(f, a, mod, shadow, default_nodes, rng_params)
+            self._copies_generator(f, e, mod, shadow)
             owns = f.has_rng or bool(f.cls and f.kind in ("method", "setter", "getter") and self.class_owns_rng(f.cls))
             for k in e.keywords:
                 self._expr(f, k.value, mod, shadow, default_nodes, rng_params)
@@ -341,6 +349,42 @@ class Table:
             elif isinstance(ch, (ast.comprehension,)):
                 self._expr(f, ch.iter, mod, shadow, default_nodes, rng_params)
 
+    def _is_generator_ref(self, x, mod, shadow):
+        """rng / random_state / <obj>.rng / <obj>._rng / global_prng (through the module's bindings)"""
+        if isinstance(x, ast.Name):
+            if x.id in ("rng", "_rng", "random_state"): return True
+            if x.id not in shadow or x.id in self.toplevel[mod]:
+                return self.bind[mod].get(x.id) == PRNG_MOD + ".global_prng"
+            return False
+        if isinstance(x, ast.Attribute):
+            if x.attr in ("rng", "_rng"): return True
+            return self._ident(x, mod) == PRNG_MOD + ".global_prng"
+        return False
+
+    def _copies_generator(self, f, call, mod, shadow):
+        """copy.copy(<generator>) / copy.deepcopy(<generator>, memo) / pickle.dumps(<generator>): a private snapshot"""
+        fn = call.func
+        x = fn
+        while isinstance(x, ast.Attribute): x = x.value
+        if not isinstance(x, ast.Name) or (x.id in shadow and x.id not in self.toplevel[mod]): return
+        ident = self._ident(fn, mod)
+        if ident not in COPY_FUNCS: return
+        args = list(call.args) + [k.value for k in call.keywords]
+        if args and self._is_generator_ref(args[0], mod, shadow):
+            self._src(f, "COPIES", "%s(%s): snapshot of a generator" % (ident, ast.unparse(args[0])), call)
+
+    def _snapshot_attrs(self, f, base, chain, e, mod, shadow):
+        """<generator>.get_state / .__getstate__ / .__reduce__ / .__deepcopy__ / .bit_generator.state"""
+        full = [base] + chain
+        for i, nm in enumerate(full):
+            gen = nm in ("rng", "_rng") or (i == 0 and (nm == "random_state" or
+                  ((nm not in shadow or nm in self.toplevel[mod]) and self.bind[mod].get(nm) == PRNG_MOD + ".global_prng")))
+            if not gen: continue
+            rest = full[i + 1:]
+            if rest and (rest[0] in SNAP_ATTRS or rest[:2] == ["bit_generator", "state"]):
+                self._src(f, "COPIES", "%s: state of a generator read out" % ".".join(full), e)
+                return
+
     def _forwarding(self, f, call, mod, shadow):
         """the callee (a package function or class) accepts rng, the caller has a generator and does not hand it on"""
         fn = call.func
@@ -361,7 +405,11 @@ class Table:
             pos = [a.arg for a in g.node.args.posonlyargs + g.node.args.args][skip:]
             if any(k.arg == "rng" or k.arg is None for k in call.keywords): continue
             if any(isinstance(a, ast.Starred) for a in call.args): continue
-            if "rng" in pos and len(call.args) > pos.index("rng"): continue
+            if "rng" in pos and len(call.args) > pos.index("rng"):
+                a = call.args[pos.index("rng")]
+                if isinstance(a, ast.Constant) and a.value is None:
+                    self._src(f, "DROPS", "calls %s with the literal None in the rng position although a generator is at hand" % g.qn[len("pybrops."):], call)
+                continue
             self._src(f, "DROPS", "calls %s without forwarding the generator" % g.qn[len("pybrops."):], call)
 
     def class_owns_rng(self, cqn):
@@ -374,6 +422,7 @@ class Table:
         while isinstance(x, ast.Attribute):
             chain.append(x.attr); x = x.value
         chain = chain[::-1]
+        if isinstance(x, ast.Name): self._snapshot_attrs(f, x.id, chain, e, mod, shadow)
         if not isinstance(x, ast.Name):
             # attribute of a computed object: resolve members by name, then classify the receiver expression
             if isinstance(x, ast.Call) and isinstance(x.func, ast.Name) and x.func.id == "super" and f.cls and chain:
@@ -563,7 +612,7 @@ def emit(tab, path, extra_names=()):
     lines = []
     A = lines.append
     A("(* GENERATED by harness/translate/c08_entropy.py from the pybrops working tree — do not edit.")
-    A("   node = (id, direct entropy-source mask, referenced nodes);  mask bits: PARAM 1, SELF 2, DEFAULT 4, NP 8, PY 16, OS 32, DROPS 64, IGNORED 128 *)")
+    A("   node = (id, direct entropy-source mask, referenced nodes);  mask bits: PARAM 1, SELF 2, DEFAULT 4, NP 8, PY 16, OS 32, DROPS 64, IGNORED 128, COPIES 256 *)")
     A("From Coq Require Import List NArith PArith String.")
     A("Import ListNotations.")
     A("Local Open Scope positive_scope.")
@@ -617,7 +666,8 @@ if __name__ == "__main__":
 
 # ------------------------------------------------------------------------------------------------ self test
 _SELFTEST_SRC = '''
-import numpy, random, os, secrets
+import numpy, random, os, secrets, copy, pickle
+from copy import deepcopy as dc
 import numpy as np
 import numpy.random as npr
 from numpy.random import Generator, default_rng
@@ -702,16 +752,36 @@ class A:
     def drop2(self): return ok_param(1, rng=None)
     def fwd(self): return ok_param(1, rng=self.rng)
     def fwdpos(self): return ok_param(1, self.rng)
+    def droppos(self): return ok_param(1, None)
 class B(A):
     def use(self): return numpy.random.random()
 def via_method(a): return a.use()
 def via_ctor(): return B()
+class C2(A):
+    def __deepcopy__(self, memo): return C2(rng=copy.deepcopy(self.rng, memo))
+    def __copy__(self): return C2(rng=self.rng)
+    def snap(self): return self.rng.bit_generator.state
+    def share(self): return numpy.random.Generator(self.rng.bit_generator)
+    def deep_other(self, x): return copy.deepcopy(x), self.rng.random()
+def bad_copy_param(rng): return dc(rng)
+def bad_copy_global(): return copy.copy(global_prng)
+def bad_pickle(rng): return pickle.dumps(rng)
+def bad_getstate(rng): return rng.get_state()
+def bad_reduce(obj): return obj._rng.__reduce__()
+def bad_rs(problem, X, random_state=None): return copy.deepcopy(random_state).random()
+def ok_copy_other(x, rng=None):
+    y = copy.deepcopy(x)
+    return rng.random()
+def ok_shadowed_copy(x, copy, rng=None): return copy.copy(rng)
 '''
 _SELFTEST_EXPECT = {"ok_param": 5, "bad_np_attr": 8, "bad_np_alias": 8, "bad_npr": 8, "bad_from": 8, "bad_py": 16, "bad_py_from": 16,
                     "bad_os": 32, "bad_os2": 32, "bad_os3": 32, "bad_os4": 32, "bad_os5": 32, "bad_os6": 32, "bad_os7": 32, "ok_seeded": 0, "Op._do": 5, "Op._do_sub": 1, "Op._do_par": 1, "Op._do_bad": 8, "Op._do_other": 0, "Op._do_owndefault": 32, "G.run": 2, "G.run_unseeded": 32, "ok_derived": 0, "ok_types": 0,
                     "bad_global": 8, "bad_global_cond": 9, "bad_wrapper": 8, "bad_urandom": 32, "bad_secrets": 32, "ignored": 128, "stub": 0,
                     "calls_bad": 0, "nested": 8, "A.__init__": 3, "A.rng": 2, "A.rng.setter": 6, "A.use": 2, "A.drop": 64, "A.drop2": 64,
-                    "A.fwd": 2, "A.fwdpos": 2, "B.use": 8, "via_method": 0, "via_ctor": 0}
+                    "A.fwd": 2, "A.fwdpos": 2, "A.droppos": 64, "B.use": 8, "via_method": 0, "via_ctor": 0,
+                    "C2.__deepcopy__": 258, "C2.__copy__": 2, "C2.snap": 258, "C2.share": 2, "C2.deep_other": 2, "bad_copy_param": 257,
+                    "bad_copy_global": 264, "bad_pickle": 257, "bad_getstate": 257, "bad_reduce": 258, "bad_rs": 257, "ok_copy_other": 1,
+                    "ok_shadowed_copy": 1}
 _SELFTEST_REFS = {"calls_bad": {"bad_py"}, "via_method": {"A.use", "B.use"}, "via_ctor": {"A.__init__"}, "A.__init__": {"A.rng.setter"},
                   "A.fwd": {"ok_param", "A.rng"}}
 _SELFTEST_RAISE = ["import numpy\ndef f():\n    r = numpy.random\n    return r.random()\n",
